@@ -30,6 +30,16 @@ Theorem limit_batch_row_agree : forall (A : Type) (B start count : nat) (bs : li
 Proof. exact limit_batch_row. Qed.
 Print Assumptions limit_batch_row_agree.
 
+(* an offset or count beyond the end of the result selects the same slice as length+1 (this is
+   how `limit s, 9223372036854775807` is handed to the twin by the correspondence; the
+   machine-integer arithmetic of the Go code itself is MODELLED as unbounded nat, the
+   correspondence runs the huge values) *)
+Theorem slice_saturates : forall (A : Type) (start count : nat) (rows : list A),
+  firstn count (skipn start rows) =
+  firstn (Nat.min count (S (length rows))) (skipn (Nat.min start (S (length rows))) rows).
+Proof. exact slice_saturates_lemma. Qed.
+Print Assumptions slice_saturates.
+
 (* non-vacuity: the hypotheses are met by a concrete non-trivial stream, and the statement
    computes to the expected slice there *)
 Example limit_batch_slice_nonvacuous :
